@@ -168,6 +168,54 @@ def real_run_case(nsteps):
         shutil.rmtree(base, ignore_errors=True)
 
 
+_PRODUCE = 'cwlVersion: v1.2\nclass: CommandLineTool\nrequirements:\n  ShellCommandRequirement: {}\ninputs:\n  msg: string\narguments:\n  - shellQuote: false\n    valueFrom: "mkdir -p \'out/s b\' && echo $(inputs.msg) > out/f.txt && echo $(inputs.msg)-nested > \'out/s b/g h.txt\'"\noutputs:\n  d:\n    type: Directory\n    outputBinding:\n      glob: out\n'
+_FLATTEN = 'cwlVersion: v1.2\nclass: ExpressionTool\nrequirements:\n  InlineJavascriptRequirement: {}\n  LoadListingRequirement:\n    loadListing: shallow_listing\ninputs:\n  d:\n    type: Directory\n    loadListing: deep_listing\n  flatten: boolean\noutputs:\n  o: Directory\nexpression: |\n  ${\n    var d = inputs.d;\n    if (inputs.flatten) {\n      var flat = [];\n      for (var i = 0; i < d.listing.length; i++) {\n        var e = d.listing[i];\n        if (e.class == "Directory") {\n          for (var j = 0; j < e.listing.length; j++) { flat.push(e.listing[j]); }\n        } else { flat.push(e); }\n      }\n      d.listing = flat;\n    }\n    return {"o": d};\n  }\n'
+_REPORT = 'cwlVersion: v1.2\nclass: CommandLineTool\nrequirements:\n  InlineJavascriptRequirement: {}\n  ShellCommandRequirement: {}\ninputs:\n  d:\n    type: Directory\n    loadListing: shallow_listing\narguments:\n  - shellQuote: false\n    valueFrom: |\n      ${\n        var cmd = "echo \'DIR " + inputs.d.path + "\'";\n        for (var i = 0; i < inputs.d.listing.length; i++) {\n          var e = inputs.d.listing[i];\n          cmd += " && echo \'" + e.class + " " + e.path + "\'";\n          if (e.class == "File") {\n            cmd += " && (cat \'" + e.path + "\' || echo MISSING)";\n          }\n        }\n        return cmd;\n      }\nstdout: report.txt\noutputs:\n  o:\n    type: stdout\n'
+_WF3 = 'cwlVersion: v1.2\nclass: Workflow\ninputs:\n  msg: string\n  flatten: boolean\noutputs:\n  report:\n    type: File\n    outputSource: c/o\nsteps:\n  a:\n    run: produce.cwl\n    in: {msg: msg}\n    out: [d]\n  b:\n    run: flatten.cwl\n    in: {d: a/d, flatten: flatten}\n    out: [o]\n  c:\n    run: report.cwl\n    in: {d: b/o}\n    out: [o]\n'
+
+
+def real_run_flatten_case():
+    """remapping as the engine uses it when it stages a Directory for a step: the Directory's listing was flattened by an ExpressionTool,
+    so some entries are not direct children (`out/s b/g h.txt` listed under `out`).  The consuming step must receive every entry at the
+    same place RELATIVE to the directory, pointing at the file with its content."""
+    import subprocess
+    import tempfile
+    import shutil
+    base = os.path.realpath(tempfile.mkdtemp(prefix="c32flat."))
+    try:
+        wf, outdir, home = (os.path.join(base, x) for x in ("wf", "outdir", "home"))
+        for d in (wf, outdir, home):
+            os.makedirs(d)
+        for fname, text in (("produce.cwl", _PRODUCE), ("flatten.cwl", _FLATTEN), ("report.cwl", _REPORT), ("main.cwl", _WF3), ("inputs.yml", "msg: hello\nflatten: true\n")):
+            open(os.path.join(wf, fname), "w").write(text)
+        code = ("import sys; sys.path.insert(0, %r)\nfrom streamflow.cwl.runner import main\n"
+                "sys.exit(main(['--quiet', '--outdir', %r, %r, %r]))\n" % (REPO, outdir, os.path.join(wf, "main.cwl"), os.path.join(wf, "inputs.yml")))
+        try:
+            r = subprocess.run([sys.executable, "-c", code], cwd=outdir, env=dict(os.environ, HOME=home), capture_output=True, text=True, timeout=300)
+        except subprocess.TimeoutExpired:
+            return {"failure": "the CWL run that stages a Directory with a flattened listing did not finish within 300 s"}
+        if r.returncode != 0 or "{" not in r.stdout:
+            return {"failure": "the CWL run that stages a Directory with a flattened listing failed", "rc": r.returncode, "stderr": r.stderr[-600:]}
+        outputs = json.loads(r.stdout[r.stdout.index("{"):])
+        lines = open(outputs["report"]["path"]).read().splitlines()
+        if not lines or not lines[0].startswith("DIR "):
+            return {"failure": "unexpected report of the consuming step", "report": lines[:6]}
+        root, entries = lines[0][4:], []
+        for line in lines[1:]:
+            if line.startswith(("File ", "Directory ")):
+                cls, pth = line.split(" ", 1)
+                entries.append([cls, pth, None])
+            elif entries:
+                entries[-1][2] = line
+        got = sorted((cls, posixpath.relpath(pth, root), body) for cls, pth, body in entries)
+        want = [("File", "f.txt", "hello"), ("File", "s b/g h.txt", "hello-nested")]
+        if got != want:
+            return {"failure": "the entries of a flattened listing do not reach the consuming step at their place relative to the staged directory", "received": got, "expected": want}
+        return None
+    finally:
+        shutil.rmtree(base, ignore_errors=True)
+
+
 def check_axioms(n):
     """A-OSPATH / A-URLLIB / A-STR of contracts/C32.py on concrete normalised paths"""
     bad = []
@@ -228,7 +276,7 @@ def crosscheck(n):
     if ax:
         print(json.dumps({"inputs": k, "axiom_disagreements": len(ax), "samples": ax[:3]}, default=str))
         sys.exit(3)
-    bad = search(k) or check_get_path() or real_run_case(2 if int(n) <= 100 else 4)
+    bad = search(k) or check_get_path() or real_run_case(2 if int(n) <= 100 else 4) or real_run_flatten_case()
     print(json.dumps({"inputs": k, "native_contract_failures": 1 if bad else 0, "samples": [bad] if bad else [], "known_findings": sorted(KNOWN)}, default=str))
     sys.exit(1 if bad else 0)
 
